@@ -164,28 +164,53 @@ inductive KeyKind where
   | other            -- any other ssh key type (ssh-dss, sk-…): keyIsSecure says no
   deriving Repr, DecidableEq
 
-/-- one line of the file as `parseAuthorizedKeys` sees it after stripping a `#…` tail and white space:
-    `blank` = nothing left (empty / comment-only / commented-out key) -/
-structure KeyLine where
-  blank : Bool
-  kind : KeyKind
-  comment : String      -- strings.TrimSpace of the ssh comment field
-  deriving Repr, DecidableEq
-
 def keyIsSecure (minRSA : Nat) : KeyKind → Bool
   | .rsa bits => bits ≥ minRSA
   | .ecdsa => true
   | .ed25519 => true
   | .other => false
 
-/-- the authorised keys, in file order: non-blank lines with a secure key and a non-empty comment -/
-def authorizedKeysOf (minRSA : Nat) : List KeyLine → List AuthKey
+/-- what golang.org/x/crypto/ssh.ParseAuthorizedKey says about the pre-processed text of a line (data) -/
+inductive SshVerdict where
+  | error                                   -- "no key found" / unparsable: parseAuthorizedKeys fails as a whole
+  | key (kind : KeyKind) (comment : String) -- key type and strings.TrimSpace of the comment field
+  deriving Repr, DecidableEq
+
+/-- one line of the file: its bytes, and the ssh parser's verdict on `preprocess raw` (meaningful when that is non-empty) -/
+structure KeyLine where
+  raw : Str
+  verdict : SshVerdict
+  deriving Repr, DecidableEq
+
+/-- `strings.SplitN(line, "#", 2)[0]` : everything before the first `#` -/
+def beforeHash : Str → Str
   | [] => []
+  | c :: r => if c = '#' then [] else c :: beforeHash r
+
+def isBlankC (c : Char) : Bool := c = ' ' || c = '\t'
+
+def trimBlankL : Str → Str
+  | [] => []
+  | c :: r => if isBlankC c then trimBlankL r else c :: r
+
+/-- `strings.TrimLeft(…, " \t")` then `strings.TrimRight(…, " \t")` -/
+def trimBlank (s : Str) : Str := (trimBlankL (trimBlankL s).reverse).reverse
+
+/-- the text of a line that is handed to the ssh parser: the part before the first `#`, blanks and tabs trimmed -/
+def preprocess (raw : Str) : Str := trimBlank (beforeHash raw)
+
+/-- the authorised keys, in file order: lines whose pre-processed text is non-empty, parses, carries a secure key and a
+    non-empty user name; `none` = parseAuthorizedKeys returns an error (some pre-processed text does not parse) -/
+def authorizedKeysOf (minRSA : Nat) : List KeyLine → Option (List AuthKey)
+  | [] => some []
   | l :: rest =>
-    if l.blank then authorizedKeysOf minRSA rest
-    else if !keyIsSecure minRSA l.kind then authorizedKeysOf minRSA rest
-    else if l.comment = "" then authorizedKeysOf minRSA rest
-    else { comment := l.comment } :: authorizedKeysOf minRSA rest
+    if preprocess l.raw = [] then authorizedKeysOf minRSA rest
+    else match l.verdict with
+      | .error => none
+      | .key kind comment =>
+        if !keyIsSecure minRSA kind then authorizedKeysOf minRSA rest
+        else if comment = "" then authorizedKeysOf minRSA rest
+        else (authorizedKeysOf minRSA rest).map ({ comment := comment } :: ·)
 
 /-! ### engine.go applyAuthMiddleware : what each configured auth type leads to -/
 
@@ -199,5 +224,27 @@ def configureAuth (typ : String) (keysFileOK : Bool) : AuthSetup :=
   if typ = "" then .noAuth
   else if typ = "token_v2" then (if keysFileOK then .tokenV2 else .error)
   else .error
+
+/-! ### the middleware over a HISTORY of requests. `middlewareImpl` holds audience, authorised keys and skipper and nothing
+      else (regenerated facts: fields, value receivers, no call on anything it holds): its state never changes. -/
+
+structure TokReq where
+  now : Int
+  hdr : Str
+  a : Analysis
+
+structure MwState where
+  audience : String
+  keys : List AuthKey
+  deriving Repr, DecidableEq
+
+/-- one request: the decision and the state afterwards -/
+def mwStep (P : Policy) (s : MwState) (r : TokReq) : MwState × Decision :=
+  (s, tokenDecision P s.audience s.keys r.now r.hdr r.a)
+
+/-- a history of requests on one instance: the decisions, in order -/
+def mwRun (P : Policy) : MwState → List TokReq → List Decision
+  | _, [] => []
+  | s, r :: rest => let (s', d) := mwStep P s r; d :: mwRun P s' rest
 
 end Nuts.C04
